@@ -195,8 +195,10 @@ fn outcome_text(files: &[(String, String)], s: &[String], n: &[String], order: O
     format!("{}", outcome_sx(compile_files(files, s, n, order)))
 }
 pub fn run_det(req: &Sx) -> (Sx, Sx) {
-    let files = files_of(req);
-    let (s, n) = settings_of(req);
+    // `split` requests: the multi-file project is the 7th element, no settings
+    let is_split = req.head() == "split";
+    let files = if is_split { files_at(req, 6) } else { files_of(req) };
+    let (s, n) = if is_split { (vec![], vec![]) } else { settings_of(req) };
     let base = outcome_text(&files, &s, &n, None);
     let kind = base[1..].split(|c: char| c == ' ' || c == ')').next().unwrap_or("").to_string();
     let mut fails: Vec<Sx> = vec![];
